@@ -40,7 +40,7 @@ type c03Dur struct {
 type c03Case struct {
 	Path    string `json:"path"` // ssh x509 x509-kubernetes role refresh awsrole
 	Dur     c03Dur `json:"dur"`
-	Cred    string `json:"cred"`    // cookie | usercert
+	Cred    string `json:"cred"`    // cookie | usercert | cookie-stepup (aged password cookie re-issued by a second-factor step now)
 	AgeSec  int64  `json:"age_sec"` // how long ago the credential was authenticated
 	KeyKind string `json:"key_kind"`
 	Signer  string `json:"signer"`
@@ -85,7 +85,7 @@ func c03Gen(t *rapid.T) c03Case {
 	c := c03Case{}
 	c.Path = rapid.SampledFrom([]string{"ssh", "ssh", "ssh", "x509", "x509", "x509-kubernetes", "role", "refresh", "awsrole"}).Draw(t, "path")
 	c.Dur = c03GenDur(t)
-	c.Cred = rapid.SampledFrom([]string{"cookie", "cookie", "usercert"}).Draw(t, "cred")
+	c.Cred = rapid.SampledFrom([]string{"cookie", "cookie", "usercert", "cookie-stepup"}).Draw(t, "cred")
 	switch rapid.IntRange(0, 4).Draw(t, "ageKind") {
 	case 0:
 		c.AgeSec = 0
@@ -189,6 +189,9 @@ func c03GetWorld(signer string) *vWorld {
 		AutomationAdmins: []string{"auto-admin"},
 		NoDB:             true,
 	})
+	vip := vNewFakeVIP()
+	vip.attach(w)
+	vip.otp["alice"] = "123456"
 	var err error
 	w.state.Config.AwsCerts.AllowedAccounts = []string{"123456789012"}
 	if err = w.state.configureAwsRoles(); err != nil {
@@ -261,6 +264,21 @@ func c03Check(c c03Case) *vResult {
 				return false
 			}
 			return w.vAttachTLS(req, c03OldUserCert(w, user, c.AgeSec))
+		case "cookie-stepup":
+			// a password session of that age proves a second factor NOW (VIP OTP):
+			// the server re-issues the cookie; the session is still as old as it was
+			old := w.authCookie(user, AuthTypePassword, time.Duration(c.AgeSec)*time.Second)
+			up := vFormRequest("POST", vipAuthPath, url.Values{"OTP": {"123456"}})
+			vAddAuthCookie(up, old)
+			resp := vServe(w.state.VIPAuthHandler, up)
+			if ck := resp.Cookie(authCookieName); resp.Code == 200 && ck != nil && ck.Value != "" {
+				res.label("stepped-up")
+				vAddAuthCookie(req, ck.Value)
+			} else {
+				res.label(fmt.Sprintf("step-up-refused:%d", resp.Code))
+				vAddAuthCookie(req, old)
+			}
+			return true
 		default:
 			vAddAuthCookie(req, w.authCookie(user, AuthTypePassword|AuthTypeU2F, time.Duration(c.AgeSec)*time.Second))
 			return true
